@@ -283,3 +283,101 @@ Section HPattern.
     - exact Hto.
   Qed.
 End HPattern.
+
+(* ------------------------------------------------------------------ *)
+(* quads: Reindex with four corners (rotations only, never mirrored)    *)
+
+Definition quad_outline_l (s0 s1 s2 s3 : Z) : list Z :=
+  [0] ++ srun 4 true (s0 - 1) ++ [1] ++ srun (4 + s0 - 1) true (s1 - 1) ++ [2] ++
+  srun (4 + s0 - 1 + s1 - 1) true (s2 - 1) ++ [3] ++ srun (4 + s0 - 1 + s1 - 1 + s2 - 1) true (s3 - 1).
+
+Lemma contour_qoutline_l s0 s1 s2 s3 :
+  contour (qoutline (V4 0 1 2 3) (V4 4 (4 + s0 - 1) (4 + s0 - 1 + s1 - 1) (4 + s0 - 1 + s1 - 1 + s2 - 1))
+                    (V4 (s0 - 1) (s1 - 1) (s2 - 1) (s3 - 1)) (V4 true true true true)) =
+  path_edges (quad_outline_l s0 s1 s2 s3 ++ [0]).
+Proof.
+  unfold contour, qoutline, quad_outline_l. cbn [flat_map g4 c0 c1 c2 c3].
+  rewrite !(proj1 (erun_srun _ _ _ _ _ _ _ _ _ _ _ _)),
+          !(proj1 (proj2 (erun_srun _ _ _ _ _ _ _ _ _ _ _ _))),
+          !(proj1 (proj2 (proj2 (erun_srun _ _ _ _ _ _ _ _ _ _ _ _)))),
+          !(proj2 (proj2 (proj2 (erun_srun _ _ _ _ _ _ _ _ _ _ _ _)))).
+  rewrite app_nil_r. cbn [app]. reflexivity.
+Qed.
+
+Lemma renamed_outline4 a b (a0 a1 a2 a3 : Z) (R0 R1 R2 R3 I : list Z) s0 s1 s2 s3 :
+  zlen R0 = s0 - 1 -> zlen R1 = s1 - 1 -> zlen R2 = s2 - 1 -> zlen R3 = s3 - 1 ->
+  pc a b (map (look ([a0; a1; a2; a3] ++ R0 ++ R1 ++ R2 ++ R3 ++ I)) (quad_outline_l s0 s1 s2 s3 ++ [0])) =
+  pc a b (a0 :: R0 ++ [a1]) + pc a b (a1 :: R1 ++ [a2]) + pc a b (a2 :: R2 ++ [a3]) + pc a b (a3 :: R3 ++ [a0]).
+Proof.
+  intros H0 H1 H2 H3. unfold quad_outline_l.
+  set (nv := [a0; a1; a2; a3] ++ R0 ++ R1 ++ R2 ++ R3 ++ I).
+  rewrite <- !app_assoc. rewrite !map_app. cbn [map].
+  assert (L0 : zlen ([a0; a1; a2; a3] ++ R0) = 4 + s0 - 1).
+  { rewrite zlen_app, H0. change (zlen [a0; a1; a2; a3]) with 4. lia. }
+  assert (L1 : zlen (([a0; a1; a2; a3] ++ R0) ++ R1) = 4 + s0 - 1 + s1 - 1) by (rewrite zlen_app, L0, H1; lia).
+  assert (L2 : zlen ((([a0; a1; a2; a3] ++ R0) ++ R1) ++ R2) = 4 + s0 - 1 + s1 - 1 + s2 - 1) by (rewrite zlen_app, L1, H2; lia).
+  assert (E0 : map (look nv) (srun 4 true (s0 - 1)) = R0).
+  { rewrite <- H0. change 4 with (zlen [a0; a1; a2; a3]). apply (look_run [a0; a1; a2; a3] R0 (R1 ++ R2 ++ R3 ++ I)). }
+  assert (E1 : map (look nv) (srun (4 + s0 - 1) true (s1 - 1)) = R1).
+  { rewrite <- H1, <- L0. unfold nv. rewrite (app_assoc [a0; a1; a2; a3] R0). apply look_run. }
+  assert (E2 : map (look nv) (srun (4 + s0 - 1 + s1 - 1) true (s2 - 1)) = R2).
+  { rewrite <- H2, <- L1. unfold nv. rewrite (app_assoc [a0; a1; a2; a3] R0), (app_assoc ([a0; a1; a2; a3] ++ R0) R1). apply look_run. }
+  assert (E3 : map (look nv) (srun (4 + s0 - 1 + s1 - 1 + s2 - 1) true (s3 - 1)) = R3).
+  { rewrite <- H3, <- L2. unfold nv.
+    rewrite (app_assoc [a0; a1; a2; a3] R0), (app_assoc ([a0; a1; a2; a3] ++ R0) R1),
+            (app_assoc (([a0; a1; a2; a3] ++ R0) ++ R1) R2). apply look_run. }
+  rewrite E0, E1, E2, E3.
+  change (look nv 0) with a0. change (look nv 1) with a1. change (look nv 2) with a2. change (look nv 3) with a3.
+  cbn [app].
+  rewrite (pc_cons_app_mid a b a0 R0 a1). rewrite (pc_cons_app_mid a b a1 R1 a2). rewrite (pc_cons_app_mid a b a2 R2 a3). lia.
+Qed.
+
+Definition rsides4 (a b v0 v1 v2 v3 o0 o1 o2 o3 : Z) (f0 f1 f2 f3 : bool) (m0 m1 m2 m3 : Z) : Z :=
+  pc a b (v0 :: edge_run o0 f0 m0 ++ [v1]) + pc a b (v1 :: edge_run o1 f1 m1 ++ [v2]) +
+  pc a b (v2 :: edge_run o2 f2 m2 ++ [v3]) + pc a b (v3 :: edge_run o3 f3 m3 ++ [v0]).
+
+Section CoreQuad.
+  Variable T : Type.
+  Variables tzero tone : T.
+  Variable tlerp : T -> T -> Z -> Z -> T.
+
+  Theorem reindex_outline_quad d0 d1 d2 d3 p v0 v1 v2 v3 o0 o1 o2 o3 f0 f1 f2 f3 io rt :
+    1 <= d0 -> 1 <= d1 -> 1 <= d2 -> 1 <= d3 -> 0 <= v0 -> 0 <= v1 -> 0 <= v2 -> 0 <= v3 ->
+    get_partition T tzero tone tlerp (V4 d0 d1 d2 d3) = Some p ->
+    reindex T p (V4 v0 v1 v2 v3) (V4 o0 o1 o2 o3) (V4 f0 f1 f2 f3) io = Some rt ->
+    forall a b, coef (boundaries rt) a b =
+                rsides4 a b v0 v1 v2 v3 o0 o1 o2 o3 f0 f1 f2 f3 (d0 - 1) (d1 - 1) (d2 - 1) (d3 - 1).
+  Proof.
+    intros D0 D1 D2 D3 V0 V1 V2 V3 Hgp Hre a b.
+    unfold get_partition in Hgp. cbn [c0] in Hgp.
+    replace (d0 =? 0) with false in Hgp by (symmetry; apply Z.eqb_neq; lia).
+    pose proof (PartitionModel.sort_divisions_quad d0 d1 d2 d3 ltac:(lia)) as Hs.
+    destruct (sort_divisions (V4 d0 d1 d2 d3)) as [s ix].
+    destruct Hs as (m & Hm & Hix & Smap & _).
+    destruct (cached_partition T tzero tone tlerp s) as [[vb tv]|] eqn:Ec; [|discriminate].
+    injection Hgp as <-. cbn [p_sorted p_idx p_vb p_tv] in *.
+    destruct s as [s0 s1 s2 s3]. unfold map4 in Smap. cbn [c0 c1 c2 c3] in Smap.
+    assert (Hpos : 0 < s3).
+    { subst ix. injection Smap as E0 E1 E2 E3. destruct m as [|[|[|[|m]]]]; [| | | |lia];
+        cbn [g4 mod4 Nat.modulo Nat.divmod Nat.add fst snd Nat.sub c0 c1 c2 c3] in E3; lia. }
+    pose proof (quad_partition_chain T tzero tone tlerp s0 s1 s2 s3 vb tv Hpos Ec) as Hceq.
+    rewrite (reindex_map T _ _ _ _ _ _ Hre). cbn [p_sorted p_idx p_vb p_tv].
+    rewrite ren_boundaries.
+    rewrite contour_qoutline_l in Hceq.
+    rewrite (lin_ceq _ _ _ (rf_antisym a b _) Hceq), lin_rf_path.
+    unfold reindex_new_verts, reindex_mirrored. cbn [c3 g4].
+    replace (v3 <? 0) with false by (symmetry; apply Z.ltb_ge; lia). cbn [andb].
+    subst ix. injection Smap as E0 E1 E2 E3.
+    destruct m as [|[|[|[|m]]]]; [| | | |lia];
+      cbn [g4 mod4 Nat.modulo Nat.divmod Nat.add fst snd Nat.sub c0 c1 c2 c3 map filter flat_map app] in *; subst s0 s1 s2 s3;
+      rewrite ?(proj2 (Z.leb_le 0 v0) V0), ?(proj2 (Z.leb_le 0 v1) V1), ?(proj2 (Z.leb_le 0 v2) V2), ?(proj2 (Z.leb_le 0 v3) V3);
+      rewrite ?app_nil_r;
+      match goal with
+      | |- context [look (([?x0; ?x1; ?x2; ?x3] ++ ?r0 ++ ?r1 ++ ?r2 ++ ?r3) ++ ?ii)] =>
+          replace (([x0; x1; x2; x3] ++ r0 ++ r1 ++ r2 ++ r3) ++ ii) with ([x0; x1; x2; x3] ++ r0 ++ r1 ++ r2 ++ r3 ++ ii)
+            by (rewrite <- !app_assoc; reflexivity)
+      end;
+      (erewrite renamed_outline4; [|rewrite edge_run_length; lia|rewrite edge_run_length; lia|rewrite edge_run_length; lia|rewrite edge_run_length; lia]);
+      unfold rsides4; lia.
+  Qed.
+End CoreQuad.
